@@ -54,6 +54,8 @@ func main() {
 			os.Exit(code)
 		}
 		os.Exit(c.Run(tier))
+	case "c18worker":
+		checks.C18Worker(os.Args[2:])
 	case "replay":
 		if len(os.Args) < 3 {
 			usage()
